@@ -63,6 +63,11 @@ impl Ctx {
         }
     }
 
+    /// directory the run writes to (scratch files of a property module go here too)
+    pub fn out_dir(&self) -> &str {
+        &self.out_dir
+    }
+
     pub fn thorough(&self) -> bool {
         self.tier == Tier::Thorough
     }
